@@ -69,7 +69,7 @@ DomSuite ==
      svmm |-> IF Thorough THEN {<<0, 0>>, <<0, 11>>, <<11, 12>>} ELSE {<<0, 0>>},
      cert |-> {"rsa", "ecdsa"},
      ssuites |-> {<<>>, <<"R3", "RC", "EC", "EG", "XG">>, <<"EC", "RC", "EG", "R3">>} \cup
-                 OrderedSubsets(AllSuites, 1, IF Thorough THEN 3 ELSE 2),
+                 OrderedSubsets(AllSuites, 1, 2) \cup (IF Thorough THEN OrderedSubsets(RsaSuites, 3, 3) ELSE {}),
      prefer |-> BOOLEAN,
      np |-> {<<"h2", "http/1.1">>},
      rules |-> {NoRule}]
